@@ -357,6 +357,8 @@ impl Server {
 
                 match new_client {
                     Ok(client) => {
+                        #[cfg(tiny_http_verif)]
+                        verif::point(verif::FP_ACCEPTED, 0, 0);
                         let messages = inside_messages.clone();
                         let mut client = Some(client);
                         tasks_pool.spawn(Box::new(move || {
@@ -370,6 +372,8 @@ impl Server {
                                     }
                                 } else {
                                     for rq in client {
+                                        #[cfg(tiny_http_verif)]
+                                        verif::point(verif::FP_CONN_PRE_PUSH, 0, 0);
                                         messages.push(rq.into());
                                     }
                                 }
